@@ -52,10 +52,10 @@ class CSSCharsetRule(cssrule.CSSRule):
         super().__init__(parentRule=parentRule, parentStyleSheet=parentStyleSheet)
         self._atkeyword = '@charset'
 
+        # (stays None if `encoding` is refused without raising)
+        self._encoding = None
         if encoding:
             self.encoding = encoding
-        else:
-            self._encoding = None
 
         self._readonly = readonly
 
